@@ -40,6 +40,7 @@ type Report struct {
 	WallSec   float64
 	TimeoutMs int
 	Level     string
+	Filtered  bool // a --func filter was given: properties without obligations in the selection are not vacuity alarms
 	Stats     *SolveStats
 	Results   []*FuncResult
 	NPaths    int
@@ -266,7 +267,7 @@ func (r *Report) finish(evidenceDir, knownPath, replayDir string, want map[strin
 				nobl++
 			}
 		}
-		if nobl == 0 {
+		if nobl == 0 && !r.Filtered {
 			violations++
 			fmt.Printf("VIOLATION property=%s replay=%s obligation=none answer=no-obligations-generated no-failing-input-found\n", prop, r.writeReplay(replayDir, prop, &OblSummary{Name: "no-obligations", Desc: "vacuity: no obligation was generated for this property"}))
 		}
